@@ -209,7 +209,7 @@ func CheckBoundary(c BCase) (vs hx.Vs, cls []string) {
 
 func TestDataTokenizerBoundary(t *testing.T) {
 	R.Rule("TestDataTokenizerBoundary", "1-4 column texts tokenized for an int32/int64 token column through DataTokenizer (consistent or random), 0-3 texts detokenized; texts: in range, at the boundaries, just outside, k+m*2^bits, boundaries of the other width, 20-40 digit numbers, decorated spellings, non-numeric; oracle: rejected with an error, or the token is a canonical in-range decimal that detokenizes to the same integer, distinct integers never share a token; non-trivial = at least one text that is not a canonical in-range decimal")
-	hx.Checks(750, 10000)
+	hx.Checks(750, 6000)
 	rapid.Check(t, func(rt *rapid.T) {
 		c := genBCase(rt)
 		vs, cls := CheckBoundary(c)
